@@ -120,6 +120,22 @@ Definition svt_case_ok (m n k : nat) (U : M) (s : list Q) (V rows : M) (t : Q) :
   && rows_close (1 # 1000000000) 0 (gram_cols Qops U) (identity_mat Qops k)
   && rows_close (1 # 1000000000) 0 (gram_rows Qops V) (identity_mat Qops k).
 
+(* procrustes without the exact SVD contract (Proofs/ProxProofsTapeCert.procrustes_case_certified, C12_procrustes_case_certified): when this Boolean
+   holds, <Q, M> <= <U V, M> + procrustes_gap for every Q with orthonormal columns / rows *)
+Definition procrustes_case_ok (m n k : nat) (U : M) (s : list Q) (V rows : M) (d : Q) : bool :=
+  Nat.leb 1 m && Nat.leb 1 n && Nat.leb 1 k && rectb m k U && Nat.eqb (length s) k && rectb k n V && rectb m n rows
+  && forallb (fun x => Qle_bool 0 x) s && negb (Qle_bool d 0)
+  && rows_close (1 # 1000000000) 0 (gram_cols Qops U) (identity_mat Qops k)
+  && rows_close (1 # 1000000000) 0 (gram_rows Qops V) (identity_mat Qops k).
+(* evaluated per procrustes case with the weight d = 1e-9 (sum s) / max(m, n): the bound must not exceed 1e-7 (sum s) *)
+Definition procrustes_gap_ok (U : M) (s : list Q) (V rows : M) : bool :=
+  let S := lsum Qops s in
+  if Qle_bool S 0 then true else
+  let m := length rows in let n := length (hd [] rows) in
+  let d := Qred (S * (1 # 1000000000) / inject_Z (Z.of_nat (Nat.max m n))) in
+  procrustes_case_ok m n (length s) U s V rows d
+  && Qle_bool (procrustes_gap Qops (1 # 1000000000) d U s V rows) (Qred ((1 # 10000000) * S)).
+
 (* exact certificates decided on the MODEL's output (so that the theorems of Proofs/ apply to it) *)
 Definition model_cert (atol rtol : Q) (o : op) (rows : M) : bool :=
   let out := run o rows in
@@ -132,7 +148,7 @@ Definition model_cert (atol rtol : Q) (o : op) (rows : M) : bool :=
   | ONormSparsity k s => norm_ok s (hard_thresholding Qops k (concat rows))
   | OSvt t U s V => svd_tape_ok atol rtol U s V rows && svt_gap_ok t U s V rows
                     && (negb (Qle_bool 0 t) || svt_case_ok (length rows) (length (hd [] rows)) (length s) U s V rows t)
-  | OProcrustes U s V => svd_tape_ok atol rtol U s V rows
+  | OProcrustes U s V => svd_tape_ok atol rtol U s V rows && procrustes_gap_ok U s V rows
   | _ => true
   end.
 
